@@ -391,6 +391,17 @@ func execChain(f []string) string {
 				return "blk=frombytes-err"
 			}
 			r3, _ := b3.Bytes()
+			// lenient form: trailing bytes in the stored block are dropped from the cached serialization
+			b4, err := blockchain.DBBlockFromBytes(append(append([]byte{}, raw...), 0xde, 0xad, byte(i)), *blk.Hash())
+			if err != nil {
+				return "blk=frombytes-trailing-err"
+			}
+			if r4, _ := b4.Bytes(); !bytes.Equal(raw, r4) || *b4.Hash() != *blk.Hash() {
+				return fmt.Sprintf("blk=trailing-differs-at-%d", i+1)
+			}
+			if _, err := blockchain.DBBlockFromBytes(raw[:len(raw)-1], *blk.Hash()); err == nil {
+				return "blk=truncated-accepted"
+			}
 			hd, err := ch.HeaderByHash(blk.Hash())
 			if err != nil {
 				return "blk=header-err"
